@@ -138,6 +138,7 @@ type c40Spec struct {
 	CloseAt       int // signaling phase (number of returned signaling calls) at which the closer fires
 	CloseDelayUs  int
 	WorkerClose   bool // additionally one worker ends its list with Close (Close from several goroutines)
+	Storm         bool // tight single-call loops per worker, Close in the middle
 	NRTP, NSample int
 	PreAdd        int // tracks added to the first offerer before the concurrent phase (round 1 already carries media)
 	LingerUs      int // workers continue this long after the last signaling call returned
@@ -222,14 +223,52 @@ func c40GenSpec(r *kit.Rand, i int) *c40Spec {
 		}
 		s.Lists = append(s.Lists, list)
 	}
+	// Storm programs (every 2nd): each worker hammers ONE listed call in a tight loop (no sleeps) while the signaling
+	// goroutine works and a Close / GracefulClose arrives in the middle — the shape in which a call is almost certainly
+	// in flight inside the library when the connection is closed (lock leaks, missed unlock paths, check-then-act windows).
+	if i%2 == 1 {
+		s.Storm = true
+		s.CloseMid = true
+		focus := []c40Kind{
+			c40CreateDataChannel, c40CreateDataChannel, c40GetStats, c40AddTrack, c40RemoveTrack, c40GetSenders,
+			c40GetTransceivers, c40GetReceivers, c40WriteRTP, c40WriteSample, c40ConnectionState, c40LocalDescription,
+		}
+		for g := range s.Lists {
+			k := focus[r.Intn(len(focus))]
+			if g == 0 {
+				k = focus[(i/2)%len(focus)] // every focus kind is the first worker's in some program
+			}
+			n := r.Range(4, 10)
+			list := make([]c40Op, 0, n+1)
+			for len(list) < n {
+				op := c40Op{K: k, Arg: r.Intn(64)}
+				if r.Chance(0.5) {
+					op.PC = s.CloseTarget
+				} else {
+					op.PC = r.Intn(2)
+				}
+				switch d := r.Intn(10); {
+				case d < 3:
+					op.Delay = -1
+				case d < 8:
+					op.Delay = 5 + r.Intn(80) // keeps a storm at some thousand calls per worker and program
+				}
+				list = append(list, op)
+			}
+			if s.WorkerClose && g == 0 {
+				list = append(list, c40Op{K: c40Close, PC: s.CloseTarget})
+			}
+			s.Lists[g] = list
+		}
+	}
 
 	return s
 }
 
 func (s *c40Spec) Desc() string {
 	var b strings.Builder
-	fmt.Fprintf(&b, "ic=%v G=%d rounds=%d first=%d waitconn=%v closeMid=%v graceful=%v target=%d at=%d+%dus wclose=%v tracks=%d+%d pre=%d linger=%d gaps=%v",
-		s.Interceptors, s.G, s.Rounds, s.FirstOfferer, s.WaitConnect, s.CloseMid, s.Graceful, s.CloseTarget, s.CloseAt,
+	fmt.Fprintf(&b, "storm=%v ic=%v G=%d rounds=%d first=%d waitconn=%v closeMid=%v graceful=%v target=%d at=%d+%dus wclose=%v tracks=%d+%d pre=%d linger=%d gaps=%v",
+		s.Storm, s.Interceptors, s.G, s.Rounds, s.FirstOfferer, s.WaitConnect, s.CloseMid, s.Graceful, s.CloseTarget, s.CloseAt,
 		s.CloseDelayUs, s.WorkerClose, s.NRTP, s.NSample, s.PreAdd, s.LingerUs, s.RoundGapUs)
 	for g, l := range s.Lists {
 		fmt.Fprintf(&b, " | w%d:", g)
@@ -346,7 +385,7 @@ type c40Prog struct {
 	sampleTracks []*TrackLocalStaticSample
 	used         [2][]atomic.Int32 // per pc, per pooled track (rtp tracks first): how often it was handed to AddTrack/FromTrack
 	perTrack     int32             // how often one pooled track may be attached to one pc (2 in odd programs: one track, several bindings)
-	kindBudget   [2]atomic.Int32  // remaining AddTransceiverFromKind per pc
+	kindBudget   [2]atomic.Int32   // remaining AddTransceiverFromKind per pc
 	dcBudget     [2]atomic.Int32
 
 	phase     atomic.Int32 // number of signaling calls that returned
@@ -473,7 +512,9 @@ func (p *c40Prog) do(op c40Op, seq *uint16) { //nolint:cyclop,gocognit
 			_, err = pc.AddTransceiverFromKind(kind, RTPTransceiverInit{Direction: c40Dirs[op.Arg%3]})
 		}
 	case c40CreateDataChannel:
-		if p.dcBudget[op.PC].Add(-1) < 0 {
+		// storms spend their (larger) channel budget around the close: before the signaling step at which the closer fires
+		// is near, a storm worker's CreateDataChannel falls back to GetStats as well
+		if (p.spec.Storm && p.sigActive.Load() && int(p.phase.Load()) < p.spec.CloseAt-1) || p.dcBudget[op.PC].Add(-1) < 0 {
 			k = c40GetStats
 			_ = len(pc.GetStats())
 
@@ -534,7 +575,11 @@ func (p *c40Prog) worker(g int) {
 	list := p.spec.Lists[g]
 	var seq uint16
 	closed := false
-	for pass := 0; pass < 400; pass++ {
+	passes := 400
+	if p.spec.Storm {
+		passes = 100000 // storm workers keep hammering until the program is over (stop), so that the close finds them busy
+	}
+	for pass := 0; pass < passes; pass++ {
 		for _, op := range list {
 			if op.K == c40Close {
 				// Close from a second goroutine: once, as soon as signaling reached the seeded step (or is over)
@@ -785,6 +830,9 @@ func c40RunProgram(spec *c40Spec, slot int) *c40Result { //nolint:cyclop
 		p.used[i] = make([]atomic.Int32, nTracks)
 		p.kindBudget[i].Store(4)
 		p.dcBudget[i].Store(10)
+		if spec.Storm {
+			p.dcBudget[i].Store(1500)
+		}
 	}
 	p.perTrack = 1 + int32(spec.Case%2) //nolint:gosec
 	// media present from round 1 in some programs (sequential set-up, still only listed calls); in odd programs the
@@ -1269,7 +1317,7 @@ const c40Rule = "seeded concurrent programs over two loopback PeerConnections: 1
 	"non-trivial when ≥2 workers returned ≥20 listed calls while signaling was in progress, ≥8 distinct call kinds " +
 	"ran, and either ≥1 round completed or Close ran mid-flight; distinct = distinct program text"
 
-func c40ProgramCount() int { return kit.N(30, 600) }
+func c40ProgramCount() int { return kit.N(48, 600) }
 
 func c40Workers() int {
 	if v, err := strconv.Atoi(os.Getenv("VERIF_C40_PAR")); err == nil && v > 0 && v <= c40MaxSlots {
